@@ -40,4 +40,6 @@ def with_state_lint(prop, run):
             shared.no_live_view_in_mutating_loop(check, rels)
             shared.no_shared_object_filled_per_iteration(check, rels)
             shared.no_reused_one_shot_iterator(check, rels)
+        from . import helpers
+        helpers.helper_contracts(check)
     return wrapped
